@@ -69,7 +69,7 @@ structure QRel (q : Q) (bl : Option Msg) (jq : JQ) : Prop where
 
 def RelQ (sq : Option Q) (blocked : Option Msg) (jq : Option JQ) : Prop :=
   match sq, jq with
-  | none, none => True
+  | none, none => blocked = none
   | some q, some j => QRel q blocked j
   | _, _ => False
 
@@ -584,5 +584,389 @@ theorem rel_wjoin (s : World) (j : JState) (h : Rel s j) (w : Nat) (t : Int) :
           have := rel_setW_model h w k { k with joined := decide (JoinRes.rc0 = JoinRes.rc1) } hg
             (by simp [jwOf]; simpa using hnj) ⟨hok.phase, hok.state⟩
           simpa using this
+
+
+/-! ### queue -/
+
+theorem relQ_some {q : Q} {bl : Option Msg} {jq : Option JQ} (h : RelQ (some q) bl jq) :
+    ∃ j, jq = some j ∧ QRel q bl j := by
+  cases jq with
+  | none => simp [RelQ] at h
+  | some j => exact ⟨j, rfl, by simpa [RelQ] using h⟩
+
+theorem relQ_none {bl : Option Msg} {jq : Option JQ} (h : RelQ none bl jq) : jq = none ∧ bl = none := by
+  cases jq with
+  | none => exact ⟨rfl, by simpa [RelQ] using h⟩
+  | some j => simp [RelQ] at h
+
+theorem Q.enqueue_fields (q : Q) (m : Msg) :
+    (q.enqueue m).1.maxMsg = q.maxMsg ∧
+    ((q.enqueue m).2 = .ok →
+      (q.enqueue m).1.enqCount = q.enqCount + 1 ∧ (q.enqueue m).1.deqCount = q.deqCount ∧
+      (q.enqueue m).1.dropCount = q.dropCount + (if q.count ≥ q.cap then 1 else 0)) := by
+  unfold Q.enqueue
+  by_cases hs : m.size = 0 ∨ m.size > q.maxMsg
+  · rw [if_pos hs]; exact ⟨rfl, fun h => by cases h⟩
+  · rw [if_neg hs]
+    by_cases hfull : q.count ≥ q.cap
+    · rw [if_pos hfull]
+      cases hd : q.dropOldest with
+      | false =>
+        simp only [Bool.false_eq_true, if_false]
+        refine ⟨by trivial, fun h => ?_⟩
+        split at h <;> cases h
+      | true =>
+        simp only [if_true]
+        split
+        · exact ⟨by first | rfl | trivial, fun _ => ⟨rfl, rfl, by simp [hfull]⟩⟩
+        · exact ⟨by first | rfl | trivial, fun h => by cases h⟩
+    · rw [if_neg hfull]
+      simp only
+      split
+      · exact ⟨by first | rfl | trivial, fun _ => ⟨rfl, rfl, by simp [hfull]⟩⟩
+      · exact ⟨by first | rfl | trivial, fun h => by cases h⟩
+
+theorem Q.dequeue_fields (q : Q) (buf : Nat) :
+    (q.dequeue buf).1.maxMsg = q.maxMsg ∧
+    (∀ m, (q.dequeue buf).2 = .msg m →
+      (q.dequeue buf).1.enqCount = q.enqCount ∧ (q.dequeue buf).1.deqCount = q.deqCount + 1 ∧
+      (q.dequeue buf).1.dropCount = q.dropCount) := by
+  unfold Q.dequeue
+  split
+  · exact ⟨rfl, fun m h => by cases h⟩
+  · split
+    · exact ⟨rfl, fun m h => by cases h⟩
+    · split
+      · exact ⟨rfl, fun m h => by cases h⟩
+      · exact ⟨rfl, fun m h => ⟨rfl, rfl, rfl⟩⟩
+
+theorem jDrop_eq {q : Q} {bl} {jq : JQ} (h : QRel q bl jq) : jDrop jq = q.dropOldest := by
+  simp [jDrop, Q.dropOldest, h.flags]
+
+theorem jBlock_eq {q : Q} {bl} {jq : JQ} (h : QRel q bl jq) : jBlock jq = q.blockWriter := by
+  simp [jBlock, Q.blockWriter, h.flags]
+
+/-- build `Rel` after a command that changed only the queue part -/
+theorem rel_q {s : World} {j : JState} (h : Rel s j) (q' : Option Q) (bl' : Option Msg) (jq' : Option JQ)
+    (hq : RelQ q' bl' jq') : Rel { s with q := q', blocked := bl' } { j with q := jq' } :=
+  ⟨h.nobad, h.items, h.bell, hq, h.wlook, h.wok, h.tInited, h.tActive, h.tAI, h.tSlept, h.tIdle⟩
+
+theorem rel_qnew (s : World) (j : JState) (h : Rel s j) (c mm fl : Nat) :
+    Rel (stepE s (.qnew c mm fl)).1 (judgeRun j (stepE s (.qnew c mm fl)).2) := by
+  simp only [stepE]
+  cases hs : s.q with
+  | some q => exact rel_same s j h _ rfl
+  | none =>
+    simp only
+    rw [judgeRun_single h]
+    have hbl : RelQ none s.blocked j.q := hs ▸ h.q
+    obtain ⟨hjq, hb⟩ := relQ_none hbl
+    cases hc : Q.create c mm fl with
+    | none =>
+      have hz : c = 0 ∨ mm = 0 := by
+        unfold Q.create at hc
+        split at hc
+        · assumption
+        · cases hc
+      have hd : decide (c ≠ 0 ∧ mm ≠ 0) = false := by
+        rcases hz with h0 | h0 <;> simp [h0]
+      simp only [judgeCore, Option.isSome_none, hd, if_true, Bool.false_eq_true, if_false]
+      have := rel_q h none s.blocked j.q hbl
+      exact this
+    | some q =>
+      obtain ⟨hinv, hcont, hcap⟩ := Q.inv_create hc
+      have hnz : c ≠ 0 ∧ mm ≠ 0 := by
+        unfold Q.create at hc
+        split at hc
+        · cases hc
+        · rename_i hn; exact ⟨fun e => hn (Or.inl e), fun e => hn (Or.inr e)⟩
+      have hd : decide (c ≠ 0 ∧ mm ≠ 0) = true := by simp [hnz]
+      have hq0 : q = { cap := c, maxMsg := mm, flags := fl, slots := List.replicate c ⟨0, 0, 0⟩ } := by
+        unfold Q.create at hc
+        split at hc
+        · cases hc
+        · simpa using hc.symm
+      simp only [judgeCore, Option.isSome_some, hd, if_true]
+      have hrel : QRel q none { cap := c, maxMsg := mm, flags := fl } := by
+        subst hq0
+        exact ⟨hinv, rfl, rfl, rfl, by simp [hcont], rfl, rfl, rfl, rfl, rfl, fun m hm => by cases hm⟩
+      have := rel_q h (some q) none (some { cap := c, maxMsg := mm, flags := fl }) hrel
+      simpa [hb] using this
+
+
+theorem j_eta {j : JState} {jq : JQ} (h : j.q = some jq) : { j with q := some jq } = j := by
+  cases j; simp_all
+
+theorem rel_qstat (s : World) (j : JState) (h : Rel s j) : Rel (stepE s .qstat).1 (judgeRun j (stepE s .qstat).2) := by
+  simp only [stepE]
+  cases hs : s.q with
+  | none => exact rel_same s j h _ rfl
+  | some q =>
+    obtain ⟨jq, hjq, hr⟩ := relQ_some (hs ▸ h.q)
+    refine rel_same s j h _ ?_
+    have hl : jq.contents.length = q.count := by rw [hr.contents, Q.contents_length]
+    simp only [judgeCore, hjq, hr.cap, hl, hr.enq, hr.deq, hr.drop]
+    have h1 : q.head < q.cap ∧ q.tail < q.cap := ⟨hr.inv.head_lt, hr.inv.tail_lt⟩
+    simp [h1]
+
+theorem rel_qclear (s : World) (j : JState) (h : Rel s j) : Rel (stepE s .qclear).1 (judgeRun j (stepE s .qclear).2) := by
+  simp only [stepE]
+  cases hs : s.q with
+  | none => exact rel_same s j h _ rfl
+  | some q =>
+    cases hb : s.blocked with
+    | some m => exact rel_same s j h _ rfl
+    | none =>
+      obtain ⟨jq, hjq, hr⟩ := relQ_some (hs ▸ h.q)
+      simp only
+      rw [judgeRun_single h]
+      simp only [judgeCore, hjq]
+      have hinv : q.clear.Inv :=
+        ⟨hr.inv.cap_pos, hr.inv.len, hr.inv.cap_pos, hr.inv.cap_pos, Nat.zero_le _, by simp [Q.clear, Nat.zero_mod]⟩
+      have hrel : QRel q.clear none { jq with contents := [] } :=
+        ⟨hinv, hr.cap, hr.maxMsg, hr.flags, by simp [Q.clear, Q.contents], hr.enq, hr.deq, hr.drop,
+          by rw [← hb]; exact hr.blk, hr.wake, fun m hm => by cases hm⟩
+      have := rel_q h (some q.clear) none (some { jq with contents := [] }) hrel
+      simpa [hb] using this
+
+theorem rel_enq (s : World) (j : JState) (h : Rel s j) (p v sz : Nat) :
+    Rel (stepE s (.enq p v sz)).1 (judgeRun j (stepE s (.enq p v sz)).2) := by
+  simp only [stepE]
+  cases hs : s.q with
+  | none => exact rel_same s j h _ rfl
+  | some q =>
+    cases hb : s.blocked with
+    | some m => exact rel_same s j h _ rfl
+    | none =>
+      obtain ⟨jq, hjq, hr⟩ := relQ_some (hs ▸ h.q)
+      have hr' : QRel q none jq := hb ▸ hr
+      simp only
+      rw [judgeRun_single h]
+      simp only [judgeCore, hjq]
+      obtain ⟨hinv, hcap, hflags, hspec⟩ := Q.enqueue_spec q hr.inv ⟨p, v, sz⟩
+      obtain ⟨hmax, hcnt⟩ := Q.enqueue_fields q ⟨p, v, sz⟩
+      have hl : jq.contents.length = q.count := by rw [hr.contents, Q.contents_length]
+      generalize hres : q.enqueue ⟨p, v, sz⟩ = res at hinv hcap hflags hspec hmax hcnt
+      obtain ⟨q', r⟩ := res
+      simp only at hinv hcap hflags hspec hmax hcnt ⊢
+      unfold judgeEnq
+      cases hspec with
+      | badSize hsz he =>
+        subst he
+        have : (⟨p, v, sz⟩ : Msg).size = 0 ∨ (⟨p, v, sz⟩ : Msg).size > jq.maxMsg := by rw [hr.maxMsg]; exact hsz
+        simp only [this, if_true]
+        have := rel_q h (some q') none (some jq) hr'
+        rw [j_eta hjq] at this
+        exact this
+      | room hsz hlt hc =>
+        have h1 : ¬ ((⟨p, v, sz⟩ : Msg).size = 0 ∨ (⟨p, v, sz⟩ : Msg).size > jq.maxMsg) := by rw [hr.maxMsg]; exact hsz
+        have h2 : ¬ (jq.contents.length ≥ jq.cap) := by rw [hl, hr.cap]; omega
+        simp only [h1, h2, if_false, if_true]
+        obtain ⟨c1, c2, c3⟩ := hcnt rfl
+        have hnf : ¬ (q.count ≥ q.cap) := by omega
+        simp only [hnf, if_false, Nat.add_zero] at c3
+        have hrel : QRel q' none { jq with contents := jq.contents ++ [⟨p, v, sz⟩], enq := jq.enq + 1 } :=
+          ⟨hinv, by rw [hcap]; exact hr.cap, by rw [hmax]; exact hr.maxMsg, by rw [hflags]; exact hr.flags,
+            by rw [hc, ← hr.contents], by rw [c1, ← hr.enq], by rw [c2]; exact hr.deq, by rw [c3]; exact hr.drop,
+            hr'.blk, hr.wake, fun m hm => by cases hm⟩
+        have := rel_q h (some q') none (some _) hrel
+        simpa using this
+      | dropOldest hsz hfull hdrop hold hc =>
+        have h1 : ¬ ((⟨p, v, sz⟩ : Msg).size = 0 ∨ (⟨p, v, sz⟩ : Msg).size > jq.maxMsg) := by rw [hr.maxMsg]; exact hsz
+        have h2 : jq.contents.length ≥ jq.cap := by rw [hl, hr.cap]; exact hfull
+        have h3 : jDrop jq = true := by rw [jDrop_eq hr]; exact hdrop
+        simp only [h1, h2, h3, if_false, if_true]
+        obtain ⟨c1, c2, c3⟩ := hcnt rfl
+        simp only [hfull, if_true] at c3
+        have hrel : QRel q' none { jq with contents := jq.contents.drop 1 ++ [⟨p, v, sz⟩], enq := jq.enq + 1, drop := jq.drop + 1 } :=
+          ⟨hinv, by rw [hcap]; exact hr.cap, by rw [hmax]; exact hr.maxMsg, by rw [hflags]; exact hr.flags,
+            by rw [hc, ← hr.contents], by rw [c1, ← hr.enq], by rw [c2]; exact hr.deq, by rw [c3, ← hr.drop],
+            hr'.blk, hr.wake, fun m hm => by cases hm⟩
+        have := rel_q h (some q') none (some _) hrel
+        simpa using this
+      | blocked hsz hfull hdrop hbw he =>
+        subst he
+        have h1 : ¬ ((⟨p, v, sz⟩ : Msg).size = 0 ∨ (⟨p, v, sz⟩ : Msg).size > jq.maxMsg) := by rw [hr.maxMsg]; exact hsz
+        have h2 : jq.contents.length ≥ jq.cap := by rw [hl, hr.cap]; exact hfull
+        have h3 : jDrop jq = false := by rw [jDrop_eq hr]; exact hdrop
+        have h4 : jBlock jq = true := by rw [jBlock_eq hr]; exact hbw
+        simp only [h1, h2, h3, h4, if_false, if_true, Bool.false_eq_true]
+        have hrel : QRel q' (some ⟨p, v, sz⟩) { jq with blocked := some ⟨p, v, sz⟩ } :=
+          ⟨hr.inv, hr.cap, hr.maxMsg, hr.flags, hr.contents, hr.enq, hr.deq, hr.drop, rfl, hr.wake,
+            fun m hm => by cases hm; exact hsz⟩
+        have := rel_q h (some q') (some ⟨p, v, sz⟩) (some _) hrel
+        simpa using this
+      | full hsz hfull hdrop hbw he =>
+        subst he
+        have h1 : ¬ ((⟨p, v, sz⟩ : Msg).size = 0 ∨ (⟨p, v, sz⟩ : Msg).size > jq.maxMsg) := by rw [hr.maxMsg]; exact hsz
+        have h2 : jq.contents.length ≥ jq.cap := by rw [hl, hr.cap]; exact hfull
+        have h3 : jDrop jq = false := by rw [jDrop_eq hr]; exact hdrop
+        have h4 : jBlock jq = false := by rw [jBlock_eq hr]; exact hbw
+        simp only [h1, h2, h3, h4, if_false, if_true, Bool.false_eq_true]
+        have := rel_q h (some q') none (some jq) hr'
+        rw [j_eta hjq] at this
+        exact this
+
+
+theorem rel_deq (s : World) (j : JState) (h : Rel s j) (buf : Nat) :
+    Rel (stepE s (.deq buf)).1 (judgeRun j (stepE s (.deq buf)).2) := by
+  simp only [stepE]
+  cases hs : s.q with
+  | none => exact rel_same s j h _ rfl
+  | some q =>
+    obtain ⟨jq, hjq, hr⟩ := relQ_some (hs ▸ h.q)
+    simp only
+    obtain ⟨hinv, hcap, hflags, hspec⟩ := Q.dequeue_spec q hr.inv buf
+    obtain ⟨hmax, hcnt⟩ := Q.dequeue_fields q buf
+    have hl : jq.contents.length = q.count := by rw [hr.contents, Q.contents_length]
+    generalize hres : q.dequeue buf = res at hinv hcap hflags hspec hmax hcnt ⊢
+    obtain ⟨q', r⟩ := res
+    simp only at hinv hcap hflags hspec hmax hcnt ⊢
+    cases hspec with
+    | empty hc he =>
+      subst he
+      have hjc : jq.contents = [] := by rw [hr.contents]; exact hc
+      cases hb : s.blocked <;>
+      · simp only
+        rw [judgeRun_single h]
+        simp only [judgeCore, hjq, judgeDeq, hjc, if_true]
+        have := rel_q h (some q') _ (some jq) (hb ▸ hr)
+        rw [j_eta hjq] at this
+        exact this
+    | short m rest hc hsz he =>
+      subst he
+      have hjc : jq.contents = m :: rest := by rw [hr.contents]; exact hc
+      cases hb : s.blocked <;>
+      · simp only
+        rw [judgeRun_single h]
+        simp only [judgeCore, hjq, judgeDeq, hjc, hsz, if_true]
+        have := rel_q h (some q') _ (some jq) (hb ▸ hr)
+        rw [j_eta hjq] at this
+        exact this
+    | took m rest hc hsz hc' =>
+      have hjc : jq.contents = m :: rest := by rw [hr.contents]; exact hc
+      obtain ⟨c1, c2, c3⟩ := hcnt m rfl
+      have hnsz : ¬ (m.size > buf) := by omega
+      have hcnt' : q'.count < q'.cap := by
+        have h1 : q'.contents.length = q'.count := Q.contents_length q'
+        have h2 : q.contents.length = q.count := Q.contents_length q
+        have h3 := hr.inv.count_le
+        rw [hc] at h2; rw [hc'] at h1
+        simp only [List.length_cons] at h2
+        rw [hcap]; omega
+      cases hb : s.blocked with
+      | none =>
+        have hjb : jq.blocked = none := by rw [hr.blk, hb]
+        simp only
+        rw [judgeRun_single h]
+        simp only [judgeCore, hjq, judgeDeq, hjc, hnsz, if_false, if_true, hjb, Option.isSome_none]
+        have hrel : QRel q' none { jq with contents := rest, deq := jq.deq + 1, blocked := none, mustWake := false } :=
+          ⟨hinv, by rw [hcap]; exact hr.cap, by rw [hmax]; exact hr.maxMsg, by rw [hflags]; exact hr.flags,
+            hc'.symm, by rw [c1]; exact hr.enq, by rw [c2, ← hr.deq], by rw [c3]; exact hr.drop, rfl, rfl,
+            fun m hm => by cases hm⟩
+        exact rel_q h (some q') none (some _) hrel
+      | some bm =>
+        have hjb : jq.blocked = some bm := by rw [hr.blk, hb]
+        have hbs : ¬ (bm.size = 0 ∨ bm.size > q'.maxMsg) := by rw [hmax]; exact hr.bsize bm hb
+        simp only
+        obtain ⟨hinv2, hcap2, hflags2, hspec2⟩ := Q.enqueue_spec q' hinv bm
+        obtain ⟨hmax2, hcnt2⟩ := Q.enqueue_fields q' bm
+        generalize hres2 : q'.enqueue bm = res2 at hinv2 hcap2 hflags2 hspec2 hmax2 hcnt2 ⊢
+        obtain ⟨q2, r2⟩ := res2
+        simp only at hinv2 hcap2 hflags2 hspec2 hmax2 hcnt2 ⊢
+        cases hspec2 with
+        | badSize hx _ => exact absurd hx hbs
+        | dropOldest _ hf _ _ _ => omega
+        | blocked _ hf _ _ _ => omega
+        | full _ hf _ _ _ => omega
+        | room _ _ hc2 =>
+          obtain ⟨d1, d2, d3⟩ := hcnt2 rfl
+          have hnf : ¬ (q'.count ≥ q'.cap) := by omega
+          simp only [hnf, if_false, Nat.add_zero] at d3
+          simp only [if_true]
+          have hlr : rest.length < jq.cap := by
+            have h1 : q'.contents.length = q'.count := Q.contents_length q'
+            rw [hc'] at h1
+            rw [hr.cap, ← hcap]; omega
+          -- first event: the dequeue; second: the writer wakes up
+          have e1 : judgeStep j (.deq buf (.msg m)) =
+              { j with q := some { jq with contents := rest, deq := jq.deq + 1, mustWake := true } } := by
+            simp only [judgeStep, wakeCheck_id j _ h.wake, judgeCore, hjq, judgeDeq, hjc, hnsz, if_false, if_true, hjb,
+              Option.isSome_some]
+          have e2 : judgeStep { j with q := some { jq with contents := rest, deq := jq.deq + 1, mustWake := true } }
+                (.unblocked bm.p bm.v) =
+              { j with q := some { jq with contents := rest ++ [bm], enq := jq.enq + 1, deq := jq.deq + 1,
+                                           blocked := none, mustWake := false } } := by
+            simp only [judgeStep, wakeCheck, judgeCore, hjb, true_and, hlr, if_true]
+          have : judgeRun j [.deq buf (.msg m), .unblocked bm.p bm.v] =
+              { j with q := some { jq with contents := rest ++ [bm], enq := jq.enq + 1, deq := jq.deq + 1,
+                                           blocked := none, mustWake := false } } := by
+            simp only [judgeRun, List.foldl_cons, List.foldl_nil, e1, e2]
+          rw [this]
+          have hrel : QRel q2 none { jq with contents := rest ++ [bm], enq := jq.enq + 1, deq := jq.deq + 1,
+                                             blocked := none, mustWake := false } :=
+            ⟨hinv2, by rw [hcap2, hcap]; exact hr.cap, by rw [hmax2, hmax]; exact hr.maxMsg,
+              by rw [hflags2, hflags]; exact hr.flags, by rw [hc2, hc'],
+              by rw [d1, c1, ← hr.enq], by rw [d2, c2, ← hr.deq], by rw [d3, c3]; exact hr.drop, rfl, rfl,
+              fun m hm => by cases hm⟩
+          exact rel_q h (some q2) none (some _) hrel
+
+/-! ### the theorem -/
+
+theorem rel_step (s : World) (j : JState) (h : Rel s j) (c : Cmd) :
+    Rel (stepE s c).1 (judgeRun j (stepE s c).2) := by
+  cases c with
+  | post p k d => exact rel_post s j h p k d
+  | wakeup => exact rel_wakeup s j h
+  | wait m => exact rel_wait s j h m
+  | qnew a b c => exact rel_qnew s j h a b c
+  | enq p v sz => exact rel_enq s j h p v sz
+  | deq b => exact rel_deq s j h b
+  | qstat => exact rel_qstat s j h
+  | qclear => exact rel_qclear s j h
+  | wnew w hold => exact rel_wnew s j h w hold
+  | wstate w => exact rel_wstate s j h w
+  | wrelease w => exact rel_wrelease s j h w
+  | wstep w => exact rel_wstep s j h w
+  | wquit w => exact rel_wquit s j h w
+  | wstop w => exact rel_wstop s j h w
+  | wjoin w t => exact rel_wjoin s j h w t
+  | wdestroy w => exact rel_wdestroy s j h w
+  | tinit => exact rel_tinit s j h
+  | tstart ms => exact rel_tstart s j h ms
+  | tstop => exact rel_tstop s j h
+  | tactive => exact rel_tactive s j h
+  | tsleep ms => exact rel_tsleep s j h ms
+  | tticks => exact rel_tticks s j h
+  | tafter => exact rel_tafter s j h
+  | tcleanup => exact rel_tcleanup s j h
+  | mt kind args => simp only [stepE]; exact rel_same s j h _ rfl
+  | hbrace ms => simp only [stepE]; exact rel_same s j h _ rfl
+
+theorem rel_run (cmds : List Cmd) : ∀ (s : World) (j : JState), Rel s j →
+    Rel (runE s cmds).1 (judgeRun j (runE s cmds).2) := by
+  induction cmds with
+  | nil => intro s j h; exact h
+  | cons c rest ih =>
+    intro s j h
+    simp only [runE]
+    rw [judgeRun_append]
+    exact ih _ _ (rel_step s j h c)
+
+theorem rel_init : Rel {} {} := by
+  refine ⟨rfl, rfl, fun h => absurd rfl h, rfl, fun _ => rfl, ?_, rfl, rfl, ?_, ?_, fun _ => rfl⟩
+  · intro w k hk; cases hk
+  · intro h; cases h
+  · intro h; cases h
+
+/-- **The model satisfies the specification oracle**: for EVERY list of commands (every sequentialised schedule
+of posts, wake-ups, waits, enqueues, dequeues, worker life-cycle steps, joins and timer calls), the events the
+model produces are accepted by `judgeEv` — the same function that judges the traces of the real code. -/
+theorem model_satisfies_spec (cmds : List Cmd) : judgeEv (events cmds) = [] := by
+  have h := rel_run cmds {} {} rel_init
+  have hb := h.nobad
+  simp only [judgeEv, events]
+  simp only [judgeRun] at hb
+  rw [hb]; rfl
 
 end NV.C19
